@@ -48,12 +48,16 @@ def generate(seed, tier):
         elif k < 0.75 and nreg:
             # unregister any handle ever obtained (so: also twice)
             ops.append({"op": "unregister", "reg": r.randrange(1, nreg + 1), "thread": r.randrange(2)})
-        elif k < 0.9:
+        elif k < 0.87:
             cfg += 1
             ops.append({"op": "publish", "cfg": cfg, "lines": sorted(r.sample((1, 2, 3), r.randrange(0, 3)))})
+        elif k < 0.92:
+            ops.append({"op": "poll"})          # a poll that finds nothing new
         else:
             ops.append({"op": "sleep", "s": r.choice((0.0, 1.0, 11.0))})
+    # the service stamps its answers with ITS clock: in step with the agent's, stuck at 0, running backwards, or jumping
     return {"ops": ops, "line_level": r.random() < 0.5, "two_threads": r.random() < 0.4,
+            "svc_clock": r.choice(("steady", "steady", "zero", "backwards", "jumpy")),
             "knobs": common.race_knobs(r, stall_p=0.0)}
 
 
@@ -66,6 +70,8 @@ def shrink_candidates(s):
         yield dict(s, two_threads=False)
     if s["line_level"]:
         yield dict(s, line_level=False)
+    if s.get("svc_clock", "steady") != "steady":
+        yield dict(s, svc_clock="steady")
 
 
 def execute(s, ch):
@@ -81,6 +87,12 @@ def execute(s, ch):
         w = world.World(k, cfg={"NO_TRACE": True}, python_plugin=False,
                         plugins=[{"name": "RecMetric", "kinds": ["metric"]}])
         svc = w.service
+        clock = s.get("svc_clock", "steady")
+        if clock != "steady":
+            k.fault("service_clock_%s" % clock)
+            svc.ts_fn = {"zero": lambda idx, now: 0,
+                         "backwards": lambda idx, now: max(1, 10**18 - idx * 10**9),
+                         "jumpy": lambda idx, now: max(1, now + ((idx * 2654435761) % 7200 - 3600) * 10**9)}[clock]
         tracer = None
         if s["line_level"]:
             src = seams.SRC
@@ -103,6 +115,13 @@ def execute(s, ch):
                 svc.set_config(tps, "h%d" % o["cfg"])
                 svc_lines[:] = o["lines"]
                 info["publishes"] += 1
+                try:
+                    w.deep.poll.poll()
+                except kernel.SimKilled:
+                    raise
+                except BaseException as e:  # noqa
+                    errors.append(("poll", repr(e)))
+            elif o["op"] == "poll":
                 try:
                     w.deep.poll.poll()
                 except kernel.SimKilled:
